@@ -189,3 +189,66 @@ func VerifC14_Cluster() {
 	}
 	vpReach("end")
 }
+
+// VerifC14_Churn: subscriber churn on one member. Connections A and B subscribe (channel or pattern, solver-chosen
+// names), optionally A disconnects, then a new connection C subscribes, then a message is published on a
+// solver-chosen channel: every live matching subscription gets it exactly once, the departed one nothing, PUBLISH
+// returns the number of deliveries and NUMSUB counts the live subscribers.
+func VerifC14_Churn() {
+	vpGoMode("defer")
+	ps := &PubSub{}
+	conns := [3]*vpConn{{id: 0}, {id: 1}, {id: 2}}
+	ref := [3]vpSubs{}
+	for i := range ref {
+		ref[i] = vpSubs{exact: map[string]bool{}, pat: map[string]bool{}}
+	}
+	sub := func(c int) {
+		if vpChoose("kind", 2) == 0 {
+			ch := vpClChans[vpChoose("chan", len(vpClChans))]
+			ps.Subscribe(conns[c], ch)
+			ref[c].exact[ch] = true
+		} else {
+			p := vpClPats[vpChoose("pat", len(vpClPats))]
+			ps.Psubscribe(conns[c], p)
+			ref[c].pat[p] = true
+		}
+	}
+	sub(0)
+	sub(1)
+	if vpChoose("a-disconnects", 2) == 1 {
+		conns[0].closed.Store(true)
+		vpRunPending()
+		cc := conns[0]
+		vpWaitUntil(func() bool {
+			ps.mu.RLock()
+			defer ps.mu.RUnlock()
+			_, ok := ps.conns[cc]
+			return !ok
+		})
+		ref[0] = vpSubs{exact: map[string]bool{}, pat: map[string]bool{}}
+	}
+	sub(2)
+	ch := vpClChans[vpChoose("pub", len(vpClChans))]
+	n := ps.Publish(ch, "m")
+	vpRunPending()
+	want, subs := 0, 0
+	for c := 0; c < 3; c++ {
+		wc := 0
+		if ref[c].exact[ch] {
+			wc++
+			subs++
+			vpAssert(vpCountMsgs(conns[c].msgs, "message", "", ch, "m") == 1, "exact-subscriber-gets-message-once")
+		}
+		for _, p := range vpKeys(ref[c].pat) {
+			if vpMatches(p, ch) {
+				wc++
+				vpAssert(vpCountMsgs(conns[c].msgs, "pmessage", p, ch, "m") == 1, "pattern-subscriber-gets-pmessage-once")
+			}
+		}
+		vpAssert(vpCountKind(conns[c].msgs) == wc, "no-delivery-to-non-subscriber")
+		want += wc
+	}
+	vpAssert(n == want, "publish-returns-number-of-deliveries")
+	vpAssert(ps.Numsub(ch) == subs, "numsub-counts-live-subscribers")
+	vpReach("end")
+}
